@@ -293,7 +293,13 @@ func genTree(r *rand.Rand, t opTable, d int) *ptree {
 		return &ptree{kind: "tern", kids: []*ptree{genTree(r, t, d-1), genTree(r, t, d-1), genTree(r, t, d-1)}}
 	case k == 7:
 		n := r.Intn(3)
+		if r.Intn(4) == 0 {
+			n = 3 + r.Intn(7) // long argument lists (slice capacity effects)
+		}
 		ks := []*ptree{genTree(r, t, d-1)}
+		if r.Intn(3) == 0 {
+			ks[0] = &ptree{kind: "mem", text: "f", kids: []*ptree{genTree(r, t, d-1)}} // method call
+		}
 		for i := 0; i < n; i++ {
 			ks = append(ks, genTree(r, t, d-1))
 		}
